@@ -9,6 +9,7 @@ mod c04;
 mod c06;
 mod coin;
 mod c13;
+mod c14;
 mod dispatch;
 mod hostile;
 mod pipe;
@@ -25,6 +26,9 @@ fn main() {
         eprintln!("usage: wfsim <property> quick|thorough|--replay <file>");
         std::process::exit(2);
     };
+    if id == "C14" && args.get(1).map(|s| s.as_str()) == Some("--golden") {
+        c14::golden_main();
+    }
     let spec = match id.as_str() {
         "C01" => c01::spec(),
         "C02" => c02::spec(),
@@ -32,6 +36,7 @@ fn main() {
         "C04" => c04::spec(),
         "C06" => c06::spec(),
         "C13" => c13::spec(),
+        "C14" => c14::spec(),
         _ => {
             eprintln!("HARNESS-ERROR unknown property {id} for this build");
             std::process::exit(2);
